@@ -415,6 +415,28 @@ def sections(ctx: Any) -> List[Ob]:
                 src_ok = isinstance(base, ast.Name) and base.id == w.params[1] and lo is not None and norm(lo) == w.params[2] and loops[0].iter.slice.upper is None
             else:
                 src_ok = self_attr(base, wme) == lst and lo is not None and norm(lo) == w.params[1] and loops[0].iter.slice.upper is None
+        if not loops:
+            # the indexed spelling: `pending = <list>[offset:]` and `while n < len(pending) and self._write_x(pending[n]): n += 1`
+            wl = [n for n in walk_local_ordered(w.node) if isinstance(n, ast.While)]
+            sl_defs = [(st_.targets[0].id, st_.value) for st_ in walk_local_ordered(w.node) if isinstance(st_, ast.Assign) and isinstance(st_.targets[0], ast.Name) and isinstance(st_.value, ast.Subscript) and isinstance(st_.value.slice, ast.Slice)]
+            cnts = [norm(a_.target) for a_ in walk_local_ordered(w.node) if isinstance(a_, ast.AugAssign)]
+            if len(wl) == 1 and len(sl_defs) == 1 and len(set(cnts)) == 1:
+                pend, sv = sl_defs[0]
+                base, lo = sv.value, sv.slice.lower
+                if writer == '_write_records_from_offset':
+                    from_off = isinstance(base, ast.Name) and base.id == w.params[1] and lo is not None and norm(lo) == w.params[2] and sv.slice.upper is None
+                else:
+                    from_off = self_attr(base, wme) == lst and lo is not None and norm(lo) == w.params[1] and sv.slice.upper is None
+                tst = wl[0].test
+                conj = tst.values if isinstance(tst, ast.BoolOp) and isinstance(tst.op, ast.And) else [tst]
+                bound_ok = False
+                try:
+                    bound_ok = len(conj) == 2 and lf.same_cmp(lf.comparison(prog, w.module, conj[0], lambda x: 'N' if isinstance(x, ast.Name) and x.id == cnts[0] else ('LEN' if isinstance(x, ast.Call) and norm(x.func) == 'len' and norm(x.args[0]) == pend else None)), lf.parse_cmp('N - LEN < 0'))
+                except lf.NotLinear:
+                    bound_ok = False
+                elem_ok = len(conj) == 2 and isinstance(conj[1], ast.Call) and call_name(conj[1]).startswith('_write_') and conj[1].args and norm(conj[1].args[0]) == f'{pend}[{cnts[0]}]'
+                starts0 = [prog.try_fold(w.module, st_.value) for st_ in walk_local_ordered(w.node) if isinstance(st_, ast.Assign) and norm(st_.targets[0]) == cnts[0]]
+                src_ok = bool(from_off and bound_ok and elem_ok and starts0 == [(True, 0)])
         obs.append(ob(R, w, f'for ... in {norm(loops[0].iter) if loops else "?"}', f'the {lst} writer iterates its list from the given offset', src_ok))
     # writers: count only after success, stop at first failure
     for writer in sorted({v[0] for v in written.values()}):
@@ -432,6 +454,11 @@ def sections(ctx: Any) -> List[Ob]:
         oc_fail, _ = traces(ctx, w, {'._write_question()': False, '._write_record()': False}, effw, loop_bound=1, for_iter=lambda n, e: True)
         g1 = {strip_ret(t) for t in oc_ok} == {('COUNT',)}
         g2 = {strip_ret(t) for t in oc_fail} == {('BREAK',)}
+        if not any(isinstance(n_, ast.For) for n_ in walk_local_ordered(w.node)):
+            # indexed spelling: the write is a conjunct of the loop test, so a failed write leaves the loop (no break needed)
+            # and the count is the only statement of the body
+            g1 = {strip_ret(t) for t in oc_ok} <= {('COUNT',), ()} and ('COUNT',) in {strip_ret(t) for t in oc_ok}
+            g2 = {strip_ret(t) for t in oc_fail} == {()}
         rets = [r for r in walk_local_ordered(w.node) if isinstance(r, ast.Return)]
         cnt_var = next((norm(n.target) for n in walk_local_ordered(w.node) if isinstance(n, ast.AugAssign)), '?')
         obs.append(ob(R, w, 'if not self._write_...(x): break; written += 1', 'an entry is counted only after it was written and the section stops at the first entry that does not fit', g1 and g2 and len(rets) == 1 and norm(rets[0].value) == cnt_var, f'success {sorted(map(str, oc_ok))} failure {sorted(map(str, oc_fail))}'))
